@@ -620,7 +620,7 @@ func c08columns(c *c08call, qa, qb []byte, path []int) (colA, colB, cqa, cqb []b
 }
 
 // ---- quality patterns ----
-var c08patterns = []string{"u40", "u2", "alt", "zero", "q93"}
+var c08patterns = []string{"u40", "u2", "alt", "zero", "q93", "u93"}
 
 func c08quals(pat string, n int, isB bool) []int {
 	q := make([]int, n)
@@ -630,6 +630,8 @@ func c08quals(pat string, n int, isB bool) []int {
 			q[i] = 40
 		case "u2":
 			q[i] = 2
+		case "u93": // very high qualities everywhere: a mismatch costs more than two gaps
+			q[i] = 93
 		case "alt": // A: 10,40,10.. B: 40,10,40..
 			if (i%2 == 0) != isB {
 				q[i] = 10
@@ -670,7 +672,7 @@ type c08cfg struct {
 
 func c08configs(deltas []int) []c08cfg {
 	var out []c08cfg
-	for _, gap := range []float64{1, 2} {
+	for _, gap := range []float64{1, 2, 0.5} {
 		for _, scale := range []float64{1, 0.5} {
 			out = append(out, c08cfg{false, false, 0, gap, scale})
 			for _, rel := range []bool{true, false} {
@@ -843,7 +845,7 @@ func TestVerifC08(t *testing.T) {
 		return
 	}
 
-	r.Bound("gap_penalties", fmt.Sprintf("gap{1,2} x scale{1,0.5} -> %d %d %d %d", c08gapPenalty(1, 1), c08gapPenalty(1, 0.5), c08gapPenalty(2, 1), c08gapPenalty(2, 0.5)))
+	r.Bound("gap_penalties", fmt.Sprintf("gap{1,2,0.5} x scale{1,0.5} -> %d %d %d %d", c08gapPenalty(1, 1), c08gapPenalty(1, 0.5), c08gapPenalty(2, 1), c08gapPenalty(2, 0.5)))
 
 	thorough := verifkit.Thorough()
 	k := 0 // work item index
@@ -862,7 +864,7 @@ func TestVerifC08(t *testing.T) {
 		r.Bound("i_alphabet", "acgt")
 		r.Bound("i_lengths", fmt.Sprintf("1..%d x 1..%d", lmax, lmax))
 		r.Bound("i_quality_patterns", pats)
-		r.Bound("configs", "exact + fast{rel,abs} x delta{0,2}, each x gap{1,2} x scale{1,0.5} (quick tier, part i: quality patterns other than u40/alt with exact and fast-rel-delta0 only)")
+		r.Bound("configs", "exact + fast{rel,abs} x delta{0,2}, each x gap{1,2,0.5} x scale{1,0.5} (quick tier, part i: quality patterns other than u40/alt with exact and fast-rel-delta0 only)")
 		cfgs := c08configs([]int{0, 2})
 		doPairs := func(kind string, reads []string, pats []string) bool {
 			for _, a := range reads {
@@ -876,7 +878,7 @@ func TestVerifC08(t *testing.T) {
 					for _, pat := range pats {
 						qa, qb := c08quals(pat, len(a), false), c08quals(pat, len(b), true)
 						sa, sb := c08mkseq("A", a, qa), c08mkseq("B", b, qb)
-						var orcs [4]c08oracle
+						var orcs [6]c08oracle
 						for ci, cf := range cfgs {
 							if !thorough && pat != "u40" && pat != "alt" && cf.Fast && (cf.Delta != 0 || !cf.Rel) {
 								continue // quick tier: secondary quality patterns with exact and fast-rel-delta0 only
@@ -885,6 +887,8 @@ func TestVerifC08(t *testing.T) {
 							oi := 0
 							if cf.Gap == 2 {
 								oi += 2
+							} else if cf.Gap == 0.5 {
+								oi += 4
 							}
 							if cf.Scale == 0.5 {
 								oi++
@@ -1007,12 +1011,14 @@ func TestVerifC08(t *testing.T) {
 						for _, pat := range vp {
 							qa, qb := c08quals(pat, len(va), false), c08quals(pat, len(vb), true)
 							sa, sb := c08mkseq("A", va, qa), c08mkseq("B", vb, qb)
-							var orcs [4]c08oracle
+							var orcs [6]c08oracle
 							for _, cf := range gcfgs {
 								c := c08call{A: va, B: vb, QA: qa, QB: qb, Fast: cf.Fast, Rel: cf.Rel, Delta: cf.Delta, Gap: cf.Gap, Scale: cf.Scale}
 								oi := 0
 								if cf.Gap == 2 {
 									oi += 2
+								} else if cf.Gap == 0.5 {
+									oi += 4
 								}
 								if cf.Scale == 0.5 {
 									oi++
